@@ -34,7 +34,8 @@ CLS_KINDS = {
     "bitfield": ("int {n} : 3;", True), "methbody": ("int {n}() const {{ return 1; }}", False),
 }
 ENUM_KINDS = {"e": ("{n},", True), "eval": ("{n} = 1 + 2,", True), "elast": ("{n}", True), "elastval": ("{n} = 4", True), "eattr": ("{n} [[deprecated]],", True)}
-ARRS = ["above", "above2", "block", "blockml", "detached", "trailing", "plain", "plain_between", "none", "bang", "above_barrier"]
+ARRS = ["above", "above2", "block", "blockml", "detached", "trailing", "plain", "plain_between", "none", "bang", "above_barrier", "detached_block", "trailing_block"]
+TRAIL = ("trailing", "trailing_block")
 
 
 def arrange(arr, decl, i, barrier):
@@ -53,6 +54,10 @@ def arrange(arr, decl, i, barrier):
         return f"/// {t}\n\n{decl}\n"
     if arr == "trailing":
         return f"{decl} ///< {t}\n"
+    if arr == "trailing_block":
+        return f"{decl} /**< {t} */\n"
+    if arr == "detached_block":
+        return f"/** {t} */\n\n{decl}\n"
     if arr == "plain":
         return f"// {t}\n{decl}\n"
     if arr == "plain_between":
@@ -79,6 +84,8 @@ def expected(arr, var_like, i):
         return ("must", f"/// {t}")
     if arr == "trailing":
         return ("must", f"///< {t}") if var_like else ("none",)
+    if arr == "trailing_block":
+        return ("must", f"/**< {t} */") if var_like else ("none",)
     return ("none",)
 
 
@@ -155,17 +162,17 @@ def pair_judge(ctx, k1, a1, k2, a2):
     v1, v2 = kinds[k1][1], kinds[k2][1]
     e1, e2 = expected(a1, v1, 1), expected(a2, v2, 2)
     # neighbour effects the statement leaves open
-    if a1 == "trailing":
-        if v1 and a2 in ("above", "above2", "block", "blockml", "bang", "plain_between", "above_barrier", "detached"):
+    if a1 in TRAIL:
+        if v1 and a2 in ("above", "above2", "block", "blockml", "bang", "plain_between", "above_barrier", "detached", "detached_block"):
             e1 = ("unspec",)   # doc lines that directly continue a trailing comment belong to it
-            e2 = ("unspec",) if a2 != "detached" else e2
+            e2 = ("unspec",) if a2 not in ("detached", "detached_block") else e2
         elif v1 and a2 in ("plain",):
             e1 = ("unspec",)
         elif not v1:
-            e2 = ("unspec",) if a2 in ("none", "plain", "above", "above2", "block", "blockml", "bang", "plain_between", "trailing") else e2
-    if a1 == "trailing" and v1 is None:
+            e2 = ("unspec",) if a2 in ("none", "plain", "above", "above2", "block", "blockml", "bang", "plain_between", "trailing", "trailing_block") else e2
+    if a1 in TRAIL and v1 is None:
         e1 = ("unspec",)
-    if a2 == "trailing" and v2 is None:
+    if a2 in TRAIL and v2 is None:
         e2 = ("unspec",)
     for i, kname, exp in ((1, k1, e1), (2, k2, e2)):
         nm = "ctor:KX1x" if kname == "ctor" else f"X{i}"
@@ -221,11 +228,11 @@ def known_class(args, bad):
     block, or follows a multi-declarator line"""
     ctx, k1, a1, k2, a2 = args
     blockish = ("cls", "ns", "nested")
-    if (k1 in blockish and a1 == "trailing") or (k2 in blockish and a2 == "trailing"):
+    if (k1 in blockish and a1 in TRAIL) or (k2 in blockish and a2 in TRAIL):
         return "D18a"
-    if k1 in ("var2", "field2") and a1 == "trailing":
+    if k1 in ("var2", "field2") and a1 in TRAIL:
         return "D18b"
-    if k2 in ("var2", "field2") and a2 == "trailing":
+    if k2 in ("var2", "field2") and a2 in TRAIL:
         return "D18b"
     return "other"
 
